@@ -637,7 +637,9 @@ class SpectralDensity(DFunction, UnitsManaged):
         newpars = []
         for prms in self.params:
             
-            #params = self.params.copy()
+            # (a copy: the temperature requested here must not replace 
+            # the temperature of this spectral density)
+            prms = dict(prms)
             if temperature is not None:
                 prms["T"] = temperature
     
